@@ -169,6 +169,7 @@ Plan sloppy_generate(uint64_t base, const std::string &prop, uint64_t index, int
     if (ro.chance(4, 5)) p.ops.push_back(mk(p.root ? P_ENTER_ARR : P_ENTER_OBJ));
     gen_sloppy_ops(ro, p.ops, 1 + (int)ro.below(60), names, p.doc.size(), p.root, true);
     p.faults.push_back("F8:faulty_caller");
+    if (prop != "C16" && ro.chance(1, 5)) p.par["nocb"] = 1;      // an application without a token callback
     return p;
 }
 
@@ -178,6 +179,7 @@ Result sloppy_execute(const Plan &p, const ExecCtx &c) {
     Sink sink; sink.own = c.prop; sink.cnt = &r.cnt;
     PSession ps(tr, sink, r.cnt);
     ps.setup(p.max_depth, p.prefill, p.doc, p.root != 0, (int)p.P("guard", 0));
+    ps.use_cb = !p.P("nocb");
     uint64_t trues = 0;
     bool other_error = false;
     for (auto &op : p.ops) {
